@@ -49,10 +49,13 @@ func spaces(prop string, thorough bool) []space {
 	three := [][]string{{"A", "B", "A"}, {"A", "A", "B"}, {"A", "B", "C"}, {"A", "A", "A"}}
 	if prop == "C06" {
 		s := []space{
+			{name: "q-P0-D2", uploads: []bool{false, true}, adds: append(append([][]string{}, two...), three[0]), batch: []int{1, 2}, workers: []int{1, 2}, retries: []int{1}, delays: []int{0}, watch: []int{1}, dry: []bool{false}, noEnv: "duration,expiry", p: 0, d: 2, sum: -1},
+			{name: "q-allpoints-P1-D0", uploads: []bool{false}, adds: [][]string{{"A", "A"}, {"A", "B", "A"}, {"A", "B"}}, batch: []int{1, 2}, workers: []int{1, 2}, retries: []int{1}, delays: []int{0}, watch: []int{1}, dry: []bool{false, true}, noEnv: "duration,expiry", p: 1, d: 0, sum: -1, all: true},
+			{name: "q-allpoints-P1-D1", uploads: []bool{false, true}, adds: [][]string{{"A", "A"}, {"A", "B", "A"}}, batch: []int{1, 2}, workers: []int{1, 2}, retries: []int{1}, delays: []int{0}, watch: []int{1}, dry: []bool{false}, noEnv: "duration,expiry", p: 1, d: 1, sum: -1, all: true},
+			{name: "q-allpoints-P2-D0", uploads: []bool{false}, adds: [][]string{{"A", "A"}, {"A", "B", "A"}}, batch: []int{1, 2}, workers: []int{1, 2}, retries: []int{1}, delays: []int{0}, watch: []int{1}, dry: []bool{false}, noEnv: "duration,expiry", p: 2, d: 0, sum: -1, all: true},
 			{name: "q-P1-D1", uploads: []bool{false, true}, adds: append(append([][]string{}, two...), three[0], three[2]), batch: []int{1, 2}, workers: []int{1, 2}, retries: []int{1}, delays: []int{0}, watch: []int{1, 2}, dry: []bool{false}, noEnv: "duration,expiry", p: 1, d: 1, sum: -1},
 			{name: "q-P2-D0", uploads: []bool{false}, adds: append(append([][]string{}, two...), three[0]), batch: []int{1, 2}, workers: []int{1, 2}, retries: []int{1}, delays: []int{0}, watch: []int{1, 2}, dry: []bool{false, true}, noEnv: "duration,expiry", p: 2, d: 0, sum: -1},
 			{name: "q-P2-D1", uploads: []bool{false}, adds: [][]string{{"A", "A"}, {"A", "B"}}, batch: []int{1, 2}, workers: []int{2}, retries: []int{1}, delays: []int{0}, watch: []int{1}, dry: []bool{false}, noEnv: "duration,expiry,localfile,begin", p: 2, d: 1, sum: -1},
-			{name: "q-P0-D2", uploads: []bool{false, true}, adds: append(append([][]string{}, two...), three[0]), batch: []int{1, 2}, workers: []int{1, 2}, retries: []int{1}, delays: []int{0}, watch: []int{1}, dry: []bool{false}, noEnv: "duration,expiry", p: 0, d: 2, sum: -1},
 		}
 		if thorough {
 			s = append(s,
@@ -66,11 +69,13 @@ func spaces(prop string, thorough bool) []space {
 	}
 	// C15
 	s := []space{
-		{name: "retry-P1-D2", uploads: []bool{false}, adds: [][]string{{"A"}, {"A", "B"}}, batch: []int{1, 2}, workers: []int{1, 2}, retries: []int{2}, delays: []int{0, 1}, watch: []int{1}, dry: []bool{false}, noEnv: "localfile,begin", expiry: true, p: 1, d: 2, sum: -1},
 		{name: "budget-end-P0", uploads: []bool{false, true}, adds: [][]string{{"A"}, {"A", "B"}}, batch: []int{1, 2}, workers: []int{1, 2, 8}, retries: []int{1, 2, 3, 8}, delays: []int{0, 1, 10}, watch: []int{1}, dry: []bool{false}, noEnv: "localfile,begin,adapter", force: true, p: 0, d: 1, sum: -1},
+		{name: "retry-P1-D1", uploads: []bool{false, true}, adds: [][]string{{"A"}, {"A", "B"}, {"A", "A"}}, batch: []int{1, 2}, workers: []int{1, 2, 3}, retries: []int{1, 2, 3}, delays: []int{0, 1}, watch: []int{1}, dry: []bool{false}, noEnv: "localfile,begin,adaptername", expiry: true, p: 1, d: 1, sum: -1},
+		{name: "retry-P0-D2", uploads: []bool{false}, adds: [][]string{{"A"}, {"A", "B"}}, batch: []int{1, 2}, workers: []int{1, 2}, retries: []int{2}, delays: []int{0, 1}, watch: []int{1}, dry: []bool{false}, noEnv: "localfile,begin,adaptername", expiry: true, p: 0, d: 2, sum: -1},
 	}
 	if thorough {
 		s = append(s,
+			space{name: "retry-P1-D2", uploads: []bool{false}, adds: [][]string{{"A"}, {"A", "B"}}, batch: []int{1, 2}, workers: []int{1, 2}, retries: []int{2}, delays: []int{0, 1}, watch: []int{1}, dry: []bool{false}, noEnv: "localfile,begin,adaptername", expiry: true, p: 1, d: 2, sum: -1},
 			space{name: "retry-P2-D2", uploads: []bool{false, true}, adds: [][]string{{"A"}, {"A", "B"}, {"A", "A"}, {"A", "B", "C"}}, batch: []int{1, 2, 3}, workers: []int{1, 2, 3}, retries: []int{1, 2, 3}, delays: []int{0, 1}, watch: []int{1}, dry: []bool{false}, noEnv: "localfile,begin", expiry: true, p: 2, d: 2, sum: -1},
 			space{name: "retry-P1-D3", uploads: []bool{false}, adds: [][]string{{"A"}, {"A", "B"}}, batch: []int{1, 2}, workers: []int{1, 2}, retries: []int{2, 3}, delays: []int{0, 1}, watch: []int{1}, dry: []bool{false}, noEnv: "localfile,begin", expiry: true, p: 1, d: 3, sum: -1},
 		)
